@@ -19,7 +19,10 @@ from concurrent.futures import ThreadPoolExecutor
 import vlib
 
 KEEP = {"Cfg", "Cmd", "CheckCall", "ModCall", "TgtCall", "Ret", "End"}
-ALL_DEVS = ["NABody", "BodyPerScope", "ReplayRejectLeaks"]
+ALL_DEVS = ["NABody", "BodyPerScope", "ReplayRejectLeaks", "DupAfterReject"]
+DMARCS = ("off", "none", "quar", "rej")
+# how the DMARC policy is published (opaque to CheckRunner.tla; harness/checkrunnercheck/dims_test.go)
+VIAS = ("p", "psp", "sp", "suborg", "subown", "upper")
 CH4 = ["c1", "c2", "c3", "c4"]
 STAGES = ["conn", "sender", "rcpt", "body"]
 
@@ -30,6 +33,9 @@ CONSTANTS
   MaxNonNone = %(nn)d
   MaxScopes = %(scopes)d
   Dmarcs = {%(dmarcs)s}
+  Vias = {%(vias)s}
+  EarlyOn = %(early)s
+  DupOn = %(dup)s
   ExtraV = {%(extrav)s}
   Only1On = %(only1)s
   WithRemote = %(remote)s
@@ -54,9 +60,11 @@ def B(x):
 
 
 def cfg(n, maxr, nn, scopes, dmarcs=("off",), only1=False, devs=(), gen=False, lazy=True,
-        remote=True, maxdelay=2, tail=MC_TAIL, spec="Spec", kinds=("pipe",), modon=False, extrav=("rq",), froms=("addr",)):
+        remote=True, maxdelay=2, tail=MC_TAIL, spec="Spec", kinds=("pipe",), modon=False, extrav=("rq",), froms=("addr",),
+        vias=("p",), early=False, dup=False):
     return CFG % dict(spec=spec, n=n, maxr=maxr, nn=nn, scopes=scopes,
                       dmarcs=", ".join('"%s"' % d for d in dmarcs), only1=B(only1),
+                      vias=", ".join('"%s"' % d for d in vias), early=B(early), dup=B(dup),
                       remote=B(remote), lazy=B(lazy), kinds=", ".join('"%s"' % x for x in kinds), modon=B(modon),
                       extrav=", ".join('"%s"' % x for x in extrav), froms=", ".join('"%s"' % x for x in froms),
                       devs=", ".join('"%s"' % d for d in devs), gen=B(gen), maxdelay=maxdelay,
@@ -76,6 +84,10 @@ MC_QUICK = [
     ("mcrp", dict(n=1, maxr=2, nn=2, scopes=4, dmarcs=("off", "quar"), kinds=("rpipe",))),
     # the real queue behind destination block D1, handing the message on after Commit
     ("mcqp", dict(n=1, maxr=2, nn=2, scopes=4, dmarcs=("off", "quar"), kinds=("qpipe",))),
+    # the connection-time entry (RunEarlyChecks) with two checks of which any subset has the hook
+    ("mcearly", dict(n=2, maxr=1, nn=1, scopes=1, early=True, remote=False, extrav=())),
+    # repeated RCPT addresses, every DMARC action (none / quarantine / reject)
+    ("mcdup", dict(n=1, maxr=3, nn=1, scopes=2, dmarcs=DMARCS, only1=True, dup=True, remote=False, extrav=())),
 ]
 MC_THOROUGH = [
     ("mc1full", dict(n=1, maxr=3, nn=4, scopes=4, dmarcs=("off", "quar"), only1=True)),
@@ -86,6 +98,10 @@ MC_THOROUGH = [
     ("mcmod1", dict(n=1, maxr=3, nn=2, scopes=4, modon=True)),
     ("mcrp", dict(n=2, maxr=2, nn=2, scopes=2, dmarcs=("off", "quar"), kinds=("rpipe",))),
     ("mcqp", dict(n=2, maxr=2, nn=2, scopes=2, dmarcs=("off", "quar"), kinds=("qpipe",))),
+    ("mcearly", dict(n=3, maxr=1, nn=1, scopes=2, early=True, remote=False, extrav=())),
+    ("mcdup", dict(n=2, maxr=2, nn=2, scopes=1, dmarcs=("off", "rej"), only1=True, dup=True, early=True, remote=False,
+                   extrav=())),
+    ("mcdup1", dict(n=1, maxr=3, nn=2, scopes=4, dmarcs=DMARCS, only1=True, dup=True, remote=False)),
 ]
 
 
@@ -107,9 +123,17 @@ def norm_cfg(c):
         if not place[k]:
             verd[k] = {s: "none" for s in STAGES}
     only1 = sorted(k for k in (c.get("only1") or []) if verd[k]["rcpt"] != "none")
-    return {"place": place, "verd": verd, "only1": only1, "route": list(c.get("route") or []),
+    route = list(c.get("route") or [])
+    dupof = [int(x) for x in (c.get("dupof") or [])][:len(route)]
+    dupof += [0] * (len(route) - len(dupof))
+    dmarc = c.get("dmarc") if c.get("dmarc") in DMARCS else "off"
+    early = sorted(k for k in (c.get("early") or []) if "G" in place.get(k, []))
+    return {"place": place, "verd": verd, "only1": only1, "route": route, "dupof": dupof,
             "path": c.get("path") if c.get("path") in ("atomic", "na") else "atomic",
-            "dmarc": c.get("dmarc") if c.get("dmarc") in ("off", "quar") else "off",
+            "dmarc": dmarc,
+            "dmvia": "-" if dmarc == "off" else (c.get("dmvia") if c.get("dmvia") in VIAS else "p"),
+            "early": early, "everd": sorted(k for k in (c.get("everd") or []) if k in early),
+            "eon": bool(c.get("eon")),
             "kind": c.get("kind", "pipe"),
             "mod": "on" if c.get("mod") == "on" else "off",
             "mfail": sorted(c.get("mfail") or []),
@@ -140,7 +164,8 @@ def dedup(behs):
 
 def nontrivial(b):
     c = b["cfg"]
-    return c["dmarc"] == "quar" or any(v != "none" for k in CH4 for v in c["verd"][k].values())
+    return c["dmarc"] != "off" or bool(c["everd"]) or any(c["dupof"]) or \
+        any(v != "none" for k in CH4 for v in c["verd"][k].values())
 
 
 def gen_job(ctx, name, kw, simulate=None, depth=None, timeout=900, workers=4):
@@ -162,12 +187,20 @@ def mc_job(ctx, name, kw, workers, timeout):
 
 def asis_job(ctx, d):
     ra = ctx.tlc("CheckRunner", None, name="asis-" + d, workers=2, timeout=600,
-                 cfg_text=cfg(n=1, maxr=2, nn=1, scopes=2, only1=True, devs=[d], tail=ASIS_TAIL))
+                 cfg_text=cfg(n=1, maxr=2, nn=1, scopes=2, only1=True, devs=[d], tail=ASIS_TAIL,
+                              dup=(d == "DupAfterReject")))
     if ra["invariant"] != "NoViolation":
         raise vlib.Infra("as-is model (%s) does not violate NoViolation: the invariant is vacuous "
                          "(see %s/tlc.out)" % (d, ra["dir"]))
     return d
 
+
+AGAIN_OFFSET = 4000000      # harness/checkrunnercheck: trace number of the second message of a behaviour
+
+# quick tier: gen-early is replayed completely, gen-dm as a seeded sample, gen-dup: every behaviour with a
+# repeated address plus a seeded few of the others
+NEW_QUICK = {"dmarc": 210, "withdup": 100000, "nodup": 30, "again": 160}
+NEW_THOROUGH = {"early": 3000, "withdup": 4000, "nodup": 400}
 
 HOOK_KEEP = {"Cfg", "Cmd", "CheckCall", "TgtCall", "Ret", "End"}
 
@@ -294,7 +327,8 @@ def convert_repo_trace(evs):
     nafin = "abort" if any(e["e"] == "Cmd" and e["op"] == "abort" for e in evs) else "commit"
     cfg_ev = {"e": "Cfg", "seq": 0, "place": {k: sorted(place.get(k, [])) for k in CH4}, "verd": verd,
               "only1": sorted(only1), "route": route, "path": "na" if na else "atomic", "dmarc": "off",
-              "kind": "pipe", "mod": "off", "mfail": [], "nafin": nafin}
+              "kind": "pipe", "mod": "off", "mfail": [], "nafin": nafin,
+              "dupof": [0] * len(route), "dmvia": "-", "early": [], "everd": [], "eon": False}
     out = [cfg_ev]
     for e in evs:
         n = {"seq": e["seq"], "e": e["e"]}
@@ -366,9 +400,9 @@ def repo_test_traces(ctx):
             break
     verdicts, by_t = ctx.validate(
         "CheckRunnerHookTrace", None, events, keep=HOOK_KEEP, name="repotests-trace",
-        cfg_text=cfg(n=4, maxr=3, nn=0, scopes=4, dmarcs=("off", "quar"), only1=True, devs=[],
+        cfg_text=cfg(n=4, maxr=3, nn=0, scopes=4, dmarcs=DMARCS, only1=True, devs=[],
                      maxdelay=0, tail=TRACE_TAIL, spec="HSpec", kinds=("pipe", "rpipe", "qpipe"), modon=True,
-                     extrav=("rq", "rqp")))
+                     extrav=("rq", "rqp"), vias=VIAS, early=True, dup=True))
     ok = drift = nviol = 0
     for t, recs in sorted(verdicts.items()):
         if t == st_t:
@@ -422,9 +456,9 @@ def run(ctx, replay):
         behs[0]["id"] = 1
     else:
         # ---- (B) behaviours out of TLC (jobs run next to the exhaustive runs) ----------
-        sim = dict(n=4 if thorough else 3, maxr=3, nn=3 if thorough else 2, dmarcs=("off", "quar"), only1=True,
+        sim = dict(n=4 if thorough else 3, maxr=3, nn=3 if thorough else 2, dmarcs=DMARCS, only1=True,
                    devs=open_devs, lazy=False, remote=False, maxdelay=2, modon=True, extrav=("rq", "rqp"),
-                   froms=("addr", "null"))
+                   froms=("addr", "null"), vias=VIAS, early=True, dup=True)
         n_sim = 2000 if thorough else 260
         gens = [
             # small scopes, every behaviour (all completion orders within the delay bound):
@@ -446,6 +480,20 @@ def run(ctx, replay):
                                                         devs=open_devs, remote=False, maxdelay=1,
                                                         kinds=("qpipe",))),
         ]
+        # the new dimensions on small scopes, every behaviour:
+        # - the connection-time entry: two checks, any subset of those in the global block hooked, any of them refusing
+        # - every DMARC action x every way of publishing it, next to one verdict of one check, both body paths
+        # - repeated RCPT addresses (r1 r1 / r1 r2 r1 / ...), one verdict, both body paths
+        NEW0 = len(gens)
+        gens += [
+            pool.submit(gen_job, ctx, "gen-early", dict(n=2, maxr=1, nn=1 if thorough else 0, scopes=2 if thorough else 1,
+                                                        devs=open_devs, remote=False, maxdelay=1, early=True, extrav=())),
+            pool.submit(gen_job, ctx, "gen-dm", dict(n=1, maxr=1, nn=1, scopes=1, dmarcs=DMARCS[1:], vias=VIAS,
+                                                     devs=open_devs, remote=False, maxdelay=0, extrav=())),
+            pool.submit(gen_job, ctx, "gen-dup", dict(n=1, maxr=3 if thorough else 2, nn=1, scopes=2, only1=True, dup=True,
+                                                      devs=open_devs, remote=False, maxdelay=0, extrav=(),
+                                                      modon=thorough)),
+        ]
         if thorough:
             gens += [
                 pool.submit(gen_job, ctx, "gen-s2", dict(n=1, maxr=2, nn=2, scopes=4, dmarcs=("off", "quar"),
@@ -457,7 +505,7 @@ def run(ctx, replay):
                                                              kinds=("rpipe",))),
             ]
         # ---- (T) exhaustive model checking of the design ------------------------------
-        mcs = [pool.submit(mc_job, ctx, name, kw, 8 if thorough else 6, 3000 if thorough else 600)
+        mcs = [pool.submit(mc_job, ctx, name, kw, 8 if thorough else 6, 3000 if thorough else 1500)
                for name, kw in (MC_THOROUGH if thorough else MC_QUICK)]
         # every named deviation must be caught by the same invariant (non-vacuity)
         asis = [pool.submit(asis_job, ctx, d) for d in ALL_DEVS]
@@ -468,15 +516,29 @@ def run(ctx, replay):
         ctx.cov["mc_runs"] = runs
         ctx.cov["asis_counterexamples_found"] = [f.result() for f in asis]
         behs = []
+        S2 = NEW0 + 3       # gen-s2 (thorough)
+        new_n = {}
         for i, f in enumerate(gens):
             got = f.result()
-            if i == 6:      # the widest small scope is sampled (seeded); the others are replayed completely
+            if i == S2:     # the widest small scope is sampled (seeded); the others are replayed completely
                 got = vlib.sample(ctx.rng, got, 4000)
             if i == 0 and not thorough:
                 got = vlib.sample(ctx.rng, got, 1200)
             if i in (4, 5) and not thorough:
                 got = vlib.sample(ctx.rng, got, 450)
+            if NEW0 <= i < NEW0 + 3:
+                dim = ("early", "dmarc", "dup")[i - NEW0]
+                new_n[dim] = len(got)
+                cap = NEW_THOROUGH if thorough else NEW_QUICK
+                if dim in cap:
+                    got = vlib.sample(ctx.rng, got, cap[dim])
+                if dim == "dup":
+                    # the behaviours that repeat an address (quick: all of them); of the others (ordinary flows) a
+                    # seeded few
+                    got = vlib.sample(ctx.rng, [b for b in got if any(b["cfg"]["dupof"])], cap["withdup"]) + \
+                        vlib.sample(ctx.rng, [b for b in got if not any(b["cfg"]["dupof"])], cap["nodup"])
             behs += got
+        ctx.cov["new_dimension_behaviours"] = new_n
         ctx.cov["exhaustive_small_scope_behaviours"] = len(gens[0].result()) + \
             sum(len(f.result()) for f in gens[4:])
         ctx.cov["remote_behind_pipeline_behaviours"] = len(gens[4].result())
@@ -484,6 +546,10 @@ def run(ctx, replay):
         behs = dedup(behs)
         if not behs:
             raise vlib.Infra("TLC produced no behaviours")
+        # a second message on the same pipeline object (harness-only dimension: messages are independent in the
+        # model, the second trace is validated like any other) for a seeded part of the behaviours
+        for b in vlib.sample(ctx.rng, [b for b in behs if b["cfg"]["kind"] == "pipe"], 2500 if thorough else NEW_QUICK["again"]):
+            b["again"] = True
     ctx.log("%d behaviours to replay" % len(behs))
 
     # ---- replay on the real pipeline -----------------------------------------
@@ -491,6 +557,8 @@ def run(ctx, replay):
     pool.shutdown()
     events = ctx.run_shards(binary, behs)
     by_id = {b["id"]: b for b in behs}
+    by_id.update({b["id"] + AGAIN_OFFSET: b for b in behs if b.get("again")})
+    ctx.cov["second_message_on_same_pipeline_traces"] = sum(1 for b in behs if b.get("again"))
 
     # observations that are reported, never a verdict (stricter readings)
     use_after_close = sum(1 for e in events if e["e"] == "CheckCall" and e.get("afterClose"))
@@ -522,9 +590,9 @@ def run(ctx, replay):
 
     verdicts, by_t = ctx.validate(
         "CheckRunnerTrace", None, events, keep=KEEP, batch=1200,
-        cfg_text=cfg(n=4, maxr=3, nn=0, scopes=4, dmarcs=("off", "quar"), only1=True, devs=open_devs,
+        cfg_text=cfg(n=4, maxr=3, nn=0, scopes=4, dmarcs=DMARCS, only1=True, devs=open_devs,
                      maxdelay=0, tail=TRACE_TAIL, spec="TSpec", kinds=("pipe", "rpipe", "qpipe"), modon=True,
-                     extrav=("rq", "rqp")))
+                     extrav=("rq", "rqp"), vias=VIAS, early=True, dup=True))
 
     ok = drift = extra = 0
     preds, known_n = {}, {}
@@ -584,8 +652,17 @@ def run(ctx, replay):
                        "non-none verdicts on any placement with DMARC, and 2 checks in one block each with all "
                        "completion orders) plus -simulate over 3 (thorough 4) checks, 3 recipients, <=2 (3) non-none "
                        "verdicts, both body paths, DMARC quarantine, random completion orders within 2 delays, half "
-                       "without and half with shared checks; de-duplicated; non-trivial = some verdict other than "
-                       "none or the DMARC action")
+                       "without and half with shared checks (simulation also draws the dimensions below); plus, every "
+                       "behaviour of three small scopes for the added dimensions: the connection-time entry RunEarlyChecks "
+                       "with two checks of which any subset of those in the global block has the EarlyCheck hook and any "
+                       "subset of these refuses (all replayed); every DMARC action (none/quarantine/reject) x six ways of "
+                       "publishing it (p / p+sp at the From domain, sp or p at the organizational domain of a subdomain "
+                       "sender, own record of the subdomain, upper-case spelling + pct=100) next to one verdict of one check "
+                       "on both body paths (quick: seeded 210); RCPT commands that repeat an earlier address (r1 r1, r1 r2 r1, "
+                       "...) on both body paths with reply slots per RCPT command as in go-smtp's LMTP collector (quick: all "
+                       "with a repetition); for a seeded part the same script is run a second time on the same pipeline "
+                       "object; de-duplicated; non-trivial = some verdict other than none, a DMARC action, a refusing early "
+                       "check or a repeated address")
     ctx.cov["violated_predicates"] = preds
     for b in behs[:3]:
         ctx.cov["samples"].append({"behaviour": b, "trace": by_t.get(b["id"], [])[:40]})
@@ -604,6 +681,15 @@ def run(ctx, replay):
         "quarantine, reject} through the real FailAction.Apply plus the raw combined result Reject && Quarantine "
         "(Reason with or without an SMTP code) that a check such as check.milter returns itself: reject wins; headers "
         "and Authentication-Results added by checks (and their order relative to modifiers) are not modelled",
+        "RunEarlyChecks is driven directly (what the SMTP endpoint calls for a new connection and before AUTH); the "
+        "scripted early check is the scripted check plus module.EarlyCheck; only 'a refusing hook refuses the connection' "
+        "is demanded of it, not how often a hook is called",
+        "DMARC scenarios: an unscripted check reports failing DKIM and SPF results for a foreign domain, so DMARC fails "
+        "and the published policy applies; the TXT records and the From domain follow cfg.dmvia, which CheckRunner.tla "
+        "does not interpret (C07 decides DMARC itself)",
+        "per-recipient body path: the harness collector has one reply slot per accepted RCPT command (go-smtp "
+        "createStatusCollector); a slot nobody fills counts as success (LMTPData returns nil after the Commit the "
+        "endpoint always issues)",
         "TLC 1.8.0, CommunityModules Json reader",
     ]
 
@@ -623,7 +709,11 @@ META = {
             "the real pipeline driven with TLC-generated behaviours (small scopes exhaustively incl. all "
             "delay-bounded completion orders, plus simulated behaviours with 3-4 checks). Also modelled and "
             "replayed: destination-scope recipient modifiers that fail for one recipient, and the real remote.Target "
-            "behind the pipeline (in-memory next hop) with quarantine arising at the body stage on both body paths.",
+            "behind the pipeline (in-memory next hop) with quarantine arising at the body stage on both body paths; "
+            "the connection-time entry RunEarlyChecks (hooked and plain checks mixed in the global block); RCPT commands "
+            "repeating an address (checks not asked twice, a refused recipient stays refused, one LMTP reply slot per "
+            "command); the DMARC actions none / quarantine / reject published through p= or sp= at the From domain or "
+            "its organizational domain, next to check verdicts; a second message on the same pipeline object.",
     "note": "Pipeline-level binding (DeliveryTarget interface), not through the SMTP/LMTP endpoints; weak readings of "
             "DESIGN 2.5 (out-of-scope replay calls, calls during refused commands and verdicts about replayed "
             "recipients are not counted); trusted: TLC, the harness, Go toolchain.",
